@@ -117,7 +117,12 @@ func vC08Inputs(r *rand.Rand, docs []vDoc, n int, maxLen int) [][]byte {
 		}
 		words := strings.Fields(string(d.raw))
 		var sb strings.Builder
-		sb.WriteString(vOOVBlock(r, 1))
+		// every other input starts directly with the license text: whatever the
+		// tokenizer loses or garbles at the very beginning of the stream then shows in
+		// the result (an unknown word in front would absorb it)
+		if len(out)%2 == 0 {
+			sb.WriteString(vOOVBlock(r, 1))
+		}
 		col := 0
 		for _, w := range words {
 			sb.WriteString(w)
@@ -134,10 +139,45 @@ func vC08Inputs(r *rand.Rand, docs []vDoc, n int, maxLen int) [][]byte {
 			col++
 		}
 		// tail: truncated / invalid sequences at the very end
-		sb.WriteString([]string{"\n", "", " end\xe2\x80", " end\xf0\x9f", " end\xff", " word-", " word-\n", "\n" + vOOVBlock(r, 1)}[r.Intn(8)])
-		out = append(out, []byte(sb.String()))
+		text := sb.String()
+		if k := r.Intn(11); k < 8 {
+			text += []string{"\n", "", " end\xe2\x80", " end\xf0\x9f", " end\xff", " word-", " word-\n", "\n" + vOOVBlock(r, 1)}[k]
+		} else {
+			// a file cut in the middle of a letter of its last word
+			text = strings.TrimRight(text, " \n") + []string{"\xc3", "\xe6\xbc", "\xe6"}[k-8]
+		}
+		out = append(out, []byte(text))
 	}
 	return out
+}
+
+// vComplete returns in with the UTF-8 sequence it ends in the middle of completed
+// (the file before it was cut), or nil when in does not end in a truncated sequence.
+func vComplete(in []byte) []byte {
+	for k := 1; k <= 3 && k <= len(in); k++ {
+		b := in[len(in)-k]
+		if b&0xC0 == 0x80 {
+			continue // continuation byte: look further back for the lead
+		}
+		need := 0
+		switch {
+		case b&0xE0 == 0xC0:
+			need = 2
+		case b&0xF0 == 0xE0:
+			need = 3
+		case b&0xF8 == 0xF0:
+			need = 4
+		}
+		if need == 0 || need <= k {
+			return nil
+		}
+		out := append([]byte{}, in...)
+		for i := k; i < need; i++ {
+			out = append(out, 0xA9)
+		}
+		return out
+	}
+	return nil
 }
 
 func vResEqual(a, b Results) (bool, string) {
@@ -259,6 +299,11 @@ func TestVerifC08(t *testing.T) {
 				}
 				cs.setInput(in)
 				want := c.Match(in)
+				if full := vComplete(in); full != nil {
+					// the uncut file was matched just before: nothing of it may be seen now
+					c.Match(full)
+					e.count("cut_inputs_after_their_complete_version", 1)
+				}
 				rd, name := mkReader(r, in, cd.style)
 				cs.params["reader"] = name
 				got, err := c.MatchFrom(rd)
@@ -279,6 +324,9 @@ func TestVerifC08(t *testing.T) {
 				want := c.Match(in)
 				for w := cd.lo; w <= cd.hi; w++ {
 					p := append(bytes.Repeat([]byte{' '}, w), in...)
+					if full := vComplete(p); full != nil && w%8 == 0 {
+						c.Match(full)
+					}
 					got := c.Match(p)
 					if ok, why := vResEqual(want, got); !ok {
 						cs.setInput(p)
